@@ -82,7 +82,8 @@ let () = Reg.register "c14.tm" (fun inp out ->
   (* lookahead flags: made explicit (ordinary parameters with explicit arguments everywhere) before the oracle *)
   let m = Templates.la_explicit (get_model inp) in
   let verdict = match lst out with
-    | [A "err"] -> "ok"
+    | [A "err"] | [A "err"; A "other"] -> "ok"
+    | [A "err"; A "uninitialized"] -> "bad:reference-with-every-parameter-provided-rejected-as-uninitialized"
     | [A "ok"; t; syms; rules] ->
       let t = get_int t in
       let syms = get_list get_bytes syms in
